@@ -115,14 +115,14 @@ PROPS["C03"] = dict(
 
 PROPS["C01"] = dict(
     level="model_checking", exhaustive=True,
-    stages=lambda tier, seed: [mc("matrix", "MC_C01", "MC_C01_%s.cfg" % tier)],
+    stages=lambda tier, seed: [mc("matrix", "MC_C01", "MC_C01_%s.cfg" % tier, expand=G.replicate(3 if tier == "quick" else 300))],
     rule="matrix from MC_C01: (key, algorithm) pairs covering oct, RSA (PKCS1 and PSS, incl. an RSA-PSS typed key), "
          "P-256/384/521, secp256k1, Ed25519, Ed448 x both providers x signature class {valid, non-canonical base64 of "
          "the same bytes, empty, garbage of two lengths, not base64, duplicated, bit flipped at first/last/random "
          "position, truncated by 1/2, extended by random/zero bytes, signed over header only / payload only / with "
          "trailing dot / swapped segments / other text / the decoded JSON, by another key, by the same key under a "
          "sibling algorithm, ES: r and s zero-extended to wider widths, DER; HS: HMAC under empty and all-zero keys} "
-         "+ header/payload altered after signing; each cell concretised Reps times (2 quick / 12 thorough) with "
+         "+ header/payload altered after signing; each cell concretised 3 (quick) / 300 (thorough) times with "
          "seed-drawn positions. Signatures are made by the driver's own signer. distinct = distinct cells x reps.",
     assumptions=ASSUME_COMMON + ["cryptography is treated as perfect: a mutated valid signature is assumed invalid (by construction, not by TLC)"],
     level_text="Exhaustive over the abstract cells (key class x algorithm x provider x signature/alteration class); "
